@@ -12,9 +12,12 @@ from pathlib import Path
 VERIF = Path(__file__).resolve().parents[2]
 SPEC = VERIF / "spec"
 WORK = VERIF / ".work"
-EVIDENCE = VERIF / "evidence"
-REPLAYS = VERIF / "replays"
 REPO = Path(os.environ.get("VERIF_REPO", "/repo"))
+# evidence and replay files describe runs against /repo itself; a run against another tree (seed testing with
+# VERIF_REPO) must not overwrite them
+_OFFICIAL = REPO.resolve() == Path("/repo")
+EVIDENCE = VERIF / "evidence" if _OFFICIAL else WORK / "evidence-other-tree"
+REPLAYS = VERIF / "replays" if _OFFICIAL else WORK / "replays-other-tree"
 SRC = REPO / "src"
 
 # the guard recorded in MANIFEST.hooks: all instrumentation is applied from outside, inside the
